@@ -39,3 +39,23 @@ def ema_alpha_masked(sub, case, v):
     """GroupBy.ema(alpha=/halflife=, no times) applies the per-row decay on masked rows too, so with an unselected
     row between two selected rows of one group the result differs from the run on the pre-filtered data."""
     return v.kind == "rel1:ema:row" and case.get("op") == "ema" and "times" not in case.get("kw", {}) and bool(v.extra.get("ema_gap"))
+
+
+@predicate("cumsum-noskipna-timedelta-nat-wraps")
+def cumsum_noskipna_timedelta(sub, case, v):
+    """cumsum(skip_na=False) of timedelta64 values: the non-skipping reducer adds the int64 views, so after a NaT
+    the running sum is int64-min plus later values (wraps, e.g. NaT + NaT = 0) instead of staying null."""
+    if v.kind != "gb:sum" or case.get("op") != "sum" or case.get("skip_na", True):
+        return False
+    vs = case["vals"][0]
+    if not vs["dtype"].startswith("m8"):
+        return False
+    row = v.extra.get("row")
+    if row is None:
+        return False
+    from . import gbops
+
+    labels = gbops.labels_of(case)
+    lab = labels[row]
+    # an earlier (or the same) row of the group holds a NaT
+    return any(labels[i] == lab and vs["vals"][i] is None for i in range(row + 1))
